@@ -88,5 +88,110 @@ pub fn handle_scan(storage: &mut EngineModel, db: usize, parts: &[RespFrame]) ->
 //@@ body
 //@@ end
 
+// ======================= HSCAN / SSCAN: key cursor [MATCH pattern] [COUNT count] ([NOVALUES] for HSCAN) =========================
+pub struct KScanOpts { pub pattern: Option<Seq<u8>>, pub count: usize, pub novalues: bool }
+pub open spec fn kscan_opts(parts: Seq<RespFrame>, i: int, o: KScanOpts, allow_novalues: bool) -> Option<KScanOpts>
+    decreases parts.len() - i
+{
+    if i >= parts.len() { Some(o) } else {
+        match arg(parts, i) {
+            None => None,
+            Some(w) => {
+                let u = spec_upper(w);
+                if u == "MATCH"@ { match arg(parts, i + 1) { Some(p) => kscan_opts(parts, i + 2, KScanOpts { pattern: Some(p), count: o.count, novalues: o.novalues }, allow_novalues), None => None } }
+                else if u == "COUNT"@ { match arg(parts, i + 1) { Some(c) => match parse_lossy_spec::<usize>(c) { Some(n) => kscan_opts(parts, i + 2, KScanOpts { pattern: o.pattern, count: n, novalues: o.novalues }, allow_novalues), None => None }, None => None } }
+                else if allow_novalues && u == "NOVALUES"@ { kscan_opts(parts, i + 1, KScanOpts { pattern: o.pattern, count: o.count, novalues: true }, allow_novalues) }
+                else { None }
+            },
+        }
+    }
+}
+pub uninterp spec fn spec_hscan_step(ds: DS, db: int, key: Seq<u8>, cursor: u64, pattern: Option<Seq<u8>>, count: usize, novalues: bool) -> Option<(u64, Seq<Seq<u8>>)>;
+pub uninterp spec fn spec_sscan_step(ds: DS, db: int, key: Seq<u8>, cursor: u64, pattern: Option<Seq<u8>>, count: usize) -> Option<(u64, Seq<Seq<u8>>)>;
+impl EngineModel {
+    /// one HSCAN / SSCAN step (the window computation is unit hscan_window / sscan_window in c19_scan); None = refused (wrong type)
+    #[verifier::external_body]
+    pub fn hscan(&mut self, db: usize, key: &[u8], cursor: u64, pattern: Option<&[u8]>, count: usize, no_values: bool) -> (r: Result<(u64, Vec<Vec<u8>>)>)
+        ensures final(self).ds@ == old(self).ds@, final(self).ttl@ == old(self).ttl@,
+            match spec_hscan_step(old(self).ds@, db as int, key@, cursor, (match pattern { Some(p) => Some(p@), None => None }), count, no_values) {
+                Some(s) => r matches Ok(t) && (t.0, t.1@.map_values(|k: Vec<u8>| k@)) == s, None => r is Err },
+    { unimplemented!() }
+    #[verifier::external_body]
+    pub fn sscan(&mut self, db: usize, key: &[u8], cursor: u64, pattern: Option<&[u8]>, count: usize) -> (r: Result<(u64, Vec<Vec<u8>>)>)
+        ensures final(self).ds@ == old(self).ds@, final(self).ttl@ == old(self).ttl@,
+            match spec_sscan_step(old(self).ds@, db as int, key@, cursor, (match pattern { Some(p) => Some(p@), None => None }), count) {
+                Some(s) => r matches Ok(t) && (t.0, t.1@.map_values(|k: Vec<u8>| k@)) == s, None => r is Err },
+    { unimplemented!() }
+}
+pub open spec fn scan_reply(r: Result<RespFrame>, step: Option<(u64, Seq<Seq<u8>>)>) -> bool {
+    match step {
+        None => !(r matches Ok(f) && !(f is Error)),
+        Some(s) => r matches Ok(RespFrame::Array(Some(v))) && v@.len() == 2 && v@[0] == cursor_frame(s.0)
+            && (v@[1] matches RespFrame::Array(Some(ks)) && ks@.len() == s.1.len() && forall|j: int| 0 <= j < s.1.len() ==> bulk_reply(#[trigger] ks@[j]) == Some(Some(s.1[j]))),
+    }
+}
+
+//@@ unit handle_hscan fn src/storage/commands/scan.rs handle_hscan
+//@@   params drop "storage: &Arc<StorageEngine>" add "storage: &mut EngineModel"
+//@@   rewrite R3
+//@@   rewrite RT "let mut pattern = None;" "let mut pattern: Option<&Vec<u8>> = None;"
+//@@   rewrite RCALL parse "String::from_utf8_lossy(bytes)" verif_cow_parse
+//@@   rewrite RCALL parse "String::from_utf8_lossy(c)" verif_cow_parse
+//@@   rewrite RXPR "String::from_utf8_lossy(option).to_uppercase()" "verif_upper(option)"
+//@@   rewrite RXPR "pattern.map(|p| &**p)" "verif_opt_bytes(pattern)"
+//@@   rewrite RXPR "elements.into_iter() .map(|e| RespFrame::from_bytes(e)) .collect()" "verif_bulk_frames(elements)"
+//@@   rewrite RXPR "next_cursor.to_string()" "next_cursor"
+//@@   rewrite RT "RespFrame::from_string(cursor_str)" "verif_cursor_frame(cursor_str)"
+//@@   loop 0
+//@@|     invariant
+//@@|         3 <= i <= parts@.len() + 1, parts@.len() >= 3,
+//@@|         *storage == *old(storage),
+//@@|         kscan_opts(parts@, 3, KScanOpts { pattern: None, count: 10, novalues: false }, true) == kscan_opts(parts@, i as int, KScanOpts {
+//@@|             pattern: (match pattern { Some(p) => Some(p@), None => None }), count: count, novalues: no_values }, true),
+//@@|     decreases parts@.len() + 1 - i,
+//@@   loopstart 0
+//@@|     proof { broadcast use group_str_eq; reveal_with_fuel(kscan_opts, 2); }
+pub fn handle_hscan(storage: &mut EngineModel, db: usize, parts: &[RespFrame]) -> (r: Result<RespFrame>)
+    ensures
+        final(storage).ds@ == old(storage).ds@, final(storage).ttl@ == old(storage).ttl@,
+        (parts@.len() < 3 || arg(parts@, 1) is None || num_arg::<u64>(parts@, 2) is None) ==> (r matches Ok(f) && f is Error),
+        parts@.len() >= 3 && arg(parts@, 1) is Some && num_arg::<u64>(parts@, 2) is Some ==> (match kscan_opts(parts@, 3, KScanOpts { pattern: None, count: 10, novalues: false }, true) {
+            None => r matches Ok(f) && f is Error,
+            Some(o) => scan_reply(r, spec_hscan_step(old(storage).ds@, db as int, arg(parts@, 1)->Some_0, num_arg::<u64>(parts@, 2)->Some_0, o.pattern, o.count, o.novalues)),
+        }),
+//@@ body
+//@@ end
+
+//@@ unit handle_sscan fn src/storage/commands/scan.rs handle_sscan
+//@@   params drop "storage: &Arc<StorageEngine>" add "storage: &mut EngineModel"
+//@@   rewrite R3
+//@@   rewrite RT "let mut pattern = None;" "let mut pattern: Option<&Vec<u8>> = None;"
+//@@   rewrite RCALL parse "String::from_utf8_lossy(bytes)" verif_cow_parse
+//@@   rewrite RCALL parse "String::from_utf8_lossy(c)" verif_cow_parse
+//@@   rewrite RXPR "String::from_utf8_lossy(option).to_uppercase()" "verif_upper(option)"
+//@@   rewrite RXPR "pattern.map(|p| &**p)" "verif_opt_bytes(pattern)"
+//@@   rewrite RXPR "members.into_iter() .map(|m| RespFrame::from_bytes(m)) .collect()" "verif_bulk_frames(members)"
+//@@   rewrite RXPR "next_cursor.to_string()" "next_cursor"
+//@@   rewrite RT "RespFrame::from_string(cursor_str)" "verif_cursor_frame(cursor_str)"
+//@@   loop 0
+//@@|     invariant
+//@@|         3 <= i <= parts@.len() + 1, parts@.len() >= 3,
+//@@|         *storage == *old(storage),
+//@@|         kscan_opts(parts@, 3, KScanOpts { pattern: None, count: 10, novalues: false }, false) == kscan_opts(parts@, i as int, KScanOpts {
+//@@|             pattern: (match pattern { Some(p) => Some(p@), None => None }), count: count, novalues: false }, false),
+//@@|     decreases parts@.len() + 1 - i,
+//@@   loopstart 0
+//@@|     proof { broadcast use group_str_eq; reveal_with_fuel(kscan_opts, 2); }
+pub fn handle_sscan(storage: &mut EngineModel, db: usize, parts: &[RespFrame]) -> (r: Result<RespFrame>)
+    ensures
+        final(storage).ds@ == old(storage).ds@, final(storage).ttl@ == old(storage).ttl@,
+        (parts@.len() < 3 || arg(parts@, 1) is None || num_arg::<u64>(parts@, 2) is None) ==> (r matches Ok(f) && f is Error),
+        parts@.len() >= 3 && arg(parts@, 1) is Some && num_arg::<u64>(parts@, 2) is Some ==> (match kscan_opts(parts@, 3, KScanOpts { pattern: None, count: 10, novalues: false }, false) {
+            None => r matches Ok(f) && f is Error,
+            Some(o) => scan_reply(r, spec_sscan_step(old(storage).ds@, db as int, arg(parts@, 1)->Some_0, num_arg::<u64>(parts@, 2)->Some_0, o.pattern, o.count)),
+        }),
+//@@ body
+//@@ end
+
 } // verus!
 fn main() {}
